@@ -3,7 +3,6 @@ From CM Require Export Model.Readers.
 
 Definition s_runs := [114;117;110;115]%N.
 Definition s_ruleId := [114;117;108;101;73;100]%N.
-Definition s_locations := [108;111;99;97;116;105;111;110;115]%N.
 Definition s_physicalLocation := [112;104;121;115;105;99;97;108;76;111;99;97;116;105;111;110]%N.
 Definition s_artifactLocation := [97;114;116;105;102;97;99;116;76;111;99;97;116;105;111;110]%N.
 Definition s_uri := [117;114;105]%N.
